@@ -243,7 +243,8 @@ def run(ctx) -> None:
         I.run.user["docs"] = {"<F2>": {"macros": [{"name": "@b", "pattern": "b"}]},
                               "<F1>": {"macros": [{"name": "@a", "pattern": "a"}, {"name": "@a2", "pattern": "a2"}]}}
         from ..models import new_yaml2regex
-        so = new_yaml2regex(I, lift_skeleton(I, {"macros": [{"name": "@r", "pattern": "r"}], "pattern": ["@r"]}),
+        so = new_yaml2regex(I, lift_skeleton(I, {"macros": [{"name": "@r", "pattern": "r"}],
+                                                    "pattern": ["@r", "@a", "j@b", {"set@a2": [S("O")]}]}),
                             ListV([Str((Hole("F2", "path", True),)), Str((Hole("F1", "path", True),))]))
         for _ in range(2):
             I.call_func(y2r.find_method("_get_pattern"), [], {}, so, None, None)
